@@ -9,6 +9,8 @@
                n >= 3 another exception class (numbered by the harness)
    answer    0 validate returned | 1 FIXMessageError | 2 AssertionError | n other class
              | [-1, k] malformed request.
+   request  [2, schema, msg_type, entries, verdicts] carries the schema itself (see parse_schema);
+   answer    [wf_schema of it (0/1), outcome as above].
    A (tag, text) pair the harness did not supply counts as exception class 99, so that a value
    check the model performs and the harness did not foresee shows up as a disagreement. *)
 From Coq Require Import ZArith NArith List Bool.
@@ -79,8 +81,84 @@ Definition sx_res (r : res) : sx :=
 Definition dict (d : Z) : option schema :=
   if d =? 0 then Some FIX44.schema else if d =? 1 then Some TT.schema else None.
 
+(* ---- a schema given in the request (synthetic dictionaries parsed by the real FIXSchema) ----
+   schema  [fields, header, messages]
+     fields    [[tag, name code, type code, has enum], ...]
+     member    [0, tag, required]  |  [1, tag, required, [member, ...]]   (field looked up by tag)
+     messages  [[msg_type, [member, ...]], ...] *)
+Definition parse_field (s : sx) : option field :=
+  match s with
+  | SL [t; n; y; e] =>
+      match get_str t, get_N n, get_N y, get_bool e with
+      | Some t', Some n', Some y', Some e' => Some (mkField t' n' y' e')
+      | _, _, _, _ => None
+      end
+  | _ => None
+  end.
+
+Definition field_by_tag (flds : list field) (t : sx) : option field :=
+  match get_str t with
+  | Some tag => find (fun f => str_eqb (f_tag f) tag) flds
+  | None => None
+  end.
+
+Fixpoint parse_member (fuel : nat) (flds : list field) (s : sx) : option member :=
+  match fuel with
+  | O => None
+  | S fuel' =>
+      match s with
+      | SL [SI k; t; r] =>
+          if k =? 0 then
+            match field_by_tag flds t, get_bool r with
+            | Some f, Some r' => Some (MField f r')
+            | _, _ => None
+            end
+          else None
+      | SL [SI k; t; r; SL ms] =>
+          if k =? 1 then
+            match field_by_tag flds t, get_bool r, opt_all (map (parse_member fuel' flds) ms) with
+            | Some f, Some r', Some ms' => Some (MGroup f r' ms')
+            | _, _, _ => None
+            end
+          else None
+      | _ => None
+      end
+  end.
+
+Definition parse_schema (s : sx) : option schema :=
+  match s with
+  | SL [fs; SL hs; SL msgs] =>
+      match get_list parse_field fs with
+      | None => None
+      | Some flds =>
+          match opt_all (map (parse_member 64 flds) hs),
+                opt_all (map (fun m => match m with
+                                       | SL [mt; SL ms] =>
+                                           match get_str mt, opt_all (map (parse_member 64 flds) ms) with
+                                           | Some mt', Some ms' => Some (mt', ms')
+                                           | _, _ => None
+                                           end
+                                       | _ => None
+                                       end) msgs) with
+          | Some hs', Some msgs' => Some (mkSchema flds hs' msgs')
+          | _, _ => None
+          end
+      end
+  | _ => None
+  end.
+
 Definition run (s : sx) : sx :=
   match s with
+  | SL [SI 2; sch; mt; es; vs] =>
+      (* answer [wf_schema, outcome] for a schema carried by the request *)
+      match parse_schema sch, get_str mt, parse_entries es, get_list parse_verdict vs with
+      | Some Sc, Some mt', Some es', Some tbl =>
+          SL [sx_of_bool (wf_schema Sc); sx_res (validate (check_from tbl) Sc (mkMsg mt' es'))]
+      | None, _, _, _ => err_sx 1
+      | _, None, _, _ => err_sx 2
+      | _, _, None, _ => err_sx 3
+      | _, _, _, None => err_sx 4
+      end
   | SL [SI d; mt; es; vs] =>
       match dict d, get_str mt, parse_entries es, get_list parse_verdict vs with
       | Some Sc, Some mt', Some es', Some tbl => sx_res (validate (check_from tbl) Sc (mkMsg mt' es'))
